@@ -190,6 +190,36 @@ pub proof fn lemma_tag_test_agrees_except_one_field_structs(a: RtValue, b: RtVal
 {
 }
 
+// ---- logical not
+// Every other boolean of a compiled program is the number 0 or 1 in both outputs; the TypeScript back end prints `!x`
+// (lir.rs, the Not arm), whose value is a JavaScript boolean, the WebAssembly back end `(i32.xor x (i32.const 1))`.
+pub enum JsValue {
+  Num(int),
+  Bool(bool),
+}
+/// ECMA-262 13.5.7: `!x` is the boolean negation of ToBoolean(x); a number is falsy iff it is 0
+pub open spec fn js_not(x: int) -> JsValue { JsValue::Bool(x == 0) }
+pub open spec fn wasm_not(x: int) -> int { if x == 0 { 1 } else { 0 } }
+/// ToBoolean: what a condition (`if (v)`, `while`) sees
+pub open spec fn js_truthy(v: JsValue) -> bool { match v { JsValue::Num(n) => n != 0, JsValue::Bool(b) => b } }
+/// C04 for `!`: the value TypeScript computes is the value WebAssembly computes — NOT provable (a boolean is not a number: it prints as
+/// `true`, and `true === 1` is false, which is what the prolog's Vec.eq and `===` on strings' payloads use); the lemma after it is the witness
+pub proof fn lemma_not_computes_the_same_value(x: int)
+  requires x == 0 || x == 1
+  ensures js_not(x) == JsValue::Num(wasm_not(x))  // :ts_not_equals_i32_xor_1_as_a_value
+{
+}
+pub proof fn lemma_not_of_zero_is_a_boolean()
+  ensures js_not(0) == JsValue::Bool(true) && js_not(0) != JsValue::Num(wasm_not(0))  // :witness_not_0_is_true_not_1
+{
+}
+/// the restricted obligation: wherever the result is only used as a condition, the two agree
+pub proof fn lemma_not_agrees_as_a_condition(x: int)
+  requires x == 0 || x == 1
+  ensures js_truthy(js_not(x)) == (wasm_not(x) != 0)  // :ts_not_equals_i32_xor_1_as_a_condition
+{
+}
+
 proof fn canary_must_fail_opsem() ensures false {}
 
 } // verus!
